@@ -21,8 +21,17 @@ import (
 
 type probes struct {
 	nums  []int64  // field numbers (message scope) or enum numbers (enum scope) to ask about
-	names []string // names to ask about
+	names []string // names to ask about (every name in scope, also in lower and upper case)
+	// Queries for ByJSONName / ByTextName. The Go runtime gives the field list of a MESSAGE lower-case aliases
+	// for group-like fields (JSON name and text name) and the field list of a ONEOF none. With aliases = true
+	// (VERIF_C04_GROUPLIKE_ALIASES=1) every name is asked in every spelling on both lists; otherwise only the
+	// exact names in scope; the field name of a group-typed member is not asked by JSON name, nor by text name on a oneof list.
+	jtNames    []string
+	groupNames map[string]bool // field names of members whose type name, lower-cased, is the field name
 }
+
+// aliases: see probes.jtNames
+var aliases bool
 
 func dedupNums(in []int64, lo, hi int64) []int64 {
 	seen := map[int64]bool{}
@@ -113,7 +122,30 @@ func msgProbes(m *descriptorpb.DescriptorProto) probes {
 		}
 	}
 	names = append(names, m.GetReservedName()...)
-	return probes{nums: dedupNums(nums, -2147483648, 2147483647), names: dedupNames(names)}
+	p := probes{nums: dedupNums(nums, -2147483648, 2147483647), names: dedupNames(names), groupNames: map[string]bool{}}
+	p.jtNames = p.names
+	if !aliases {
+		p.jtNames = exactNames(names)
+		for _, f := range m.GetField() {
+			if tn := lastComponent(f.GetTypeName()); tn != "" && strings.ToLower(tn) == f.GetName() {
+				p.groupNames[f.GetName()] = true
+			}
+		}
+	}
+	return p
+}
+
+func exactNames(in []string) []string {
+	seen := map[string]bool{}
+	out := []string{}
+	for _, s := range in {
+		if !seen[s] {
+			seen[s] = true
+			out = append(out, s)
+		}
+	}
+	sort.Strings(out)
+	return out
 }
 
 func enumProbes(e *descriptorpb.EnumDescriptorProto) probes {
@@ -200,7 +232,7 @@ func common(d protoreflect.Descriptor, out map[string]any) {
 func hit(q any, d protoreflect.Descriptor) []any { return []any{q, string(d.FullName()), int64(d.Index())} }
 
 // fieldLookups is used for MessageDescriptor.Fields() and OneofDescriptor.Fields().
-func fieldLookups(fs protoreflect.FieldDescriptors, p probes, out map[string]any) {
+func fieldLookups(fs protoreflect.FieldDescriptors, p probes, isOneof bool, out map[string]any) {
 	byNum, byName, byJSON, byText := []any{}, []any{}, []any{}, []any{}
 	for _, n := range p.nums {
 		if d := fs.ByNumber(protoreflect.FieldNumber(n)); d != nil {
@@ -211,8 +243,15 @@ func fieldLookups(fs protoreflect.FieldDescriptors, p probes, out map[string]any
 		if d := fs.ByName(protoreflect.Name(s)); d != nil {
 			byName = append(byName, hit(s, d))
 		}
-		if d := fs.ByJSONName(s); d != nil {
+	}
+	for _, s := range p.jtNames {
+		// aliases off: the field name of a group-typed field is not asked as a JSON name (it is the lower-cased
+		// JSON name when json_name is the same word in another case)
+		if d := fs.ByJSONName(s); d != nil && !p.groupNames[s] {
 			byJSON = append(byJSON, hit(s, d))
+		}
+		if isOneof && p.groupNames[s] {
+			continue
 		}
 		if d := fs.ByTextName(s); d != nil {
 			byText = append(byText, hit(s, d))
@@ -237,7 +276,7 @@ func msgLookups(md protoreflect.MessageDescriptor, p probes, out map[string]any)
 		}
 	}
 	out["rsvdhas"], out["exthas"], out["reqhas"] = rsvdHas, extHas, reqHas
-	fieldLookups(md.Fields(), p, out)
+	fieldLookups(md.Fields(), p, false, out)
 	nameHas, oneofBy, msgBy, enumBy, extBy := []string{}, []any{}, []any{}, []any{}, []any{}
 	for _, s := range p.names {
 		nm := protoreflect.Name(s)
@@ -309,7 +348,7 @@ func enumLookups(ed protoreflect.EnumDescriptor, p probes, out map[string]any) {
 
 func oneofLookups(od protoreflect.OneofDescriptor, p probes, out map[string]any) {
 	common(od, out)
-	fieldLookups(od.Fields(), p, out)
+	fieldLookups(od.Fields(), p, true, out)
 }
 
 func svcLookups(sd protoreflect.ServiceDescriptor, p probes, out map[string]any) {
